@@ -1,0 +1,43 @@
+//go:build verif
+
+// Contracts for the watermill verification harness (/verif, tool "gowp").
+// Comment-only: with the build tag off this file is not compiled, with it on it adds no code.
+
+package middleware
+
+//@ global ErrInvalidPoisonQueueTopic != nil
+
+//@ func init
+//@   nopanic
+//@   ensures ErrInvalidPoisonQueueTopic != nil [sentinel-error-set]
+
+// ---- poison queue (C13) ----
+
+//@ spec metaKept(m *message.Message) bool := forall k string :: has(m.Metadata, k) == old(has(m.Metadata, k)) && m.Metadata[k] == old(m.Metadata[k])
+//@ spec isPoisonKey(k string) bool := k == ReasonForPoisonedKey || k == PoisonedTopicKey || k == PoisonedHandlerKey || k == PoisonedSubscriberKey
+//@ spec poisonStamped(m *message.Message, e error) bool := has(m.Metadata, ReasonForPoisonedKey) && m.Metadata[ReasonForPoisonedKey] == errtext(e) && has(m.Metadata, PoisonedTopicKey) && m.Metadata[PoisonedTopicKey] == ctxstr(old(ctxOf(m)), message.subscribeTopicKey) && has(m.Metadata, PoisonedHandlerKey) && m.Metadata[PoisonedHandlerKey] == ctxstr(old(ctxOf(m)), message.handlerNameKey) && has(m.Metadata, PoisonedSubscriberKey) && m.Metadata[PoisonedSubscriberKey] == ctxstr(old(ctxOf(m)), message.subscriberNameKey) && (forall k string :: !isPoisonKey(k) ==> has(m.Metadata, k) == old(has(m.Metadata, k)) && m.Metadata[k] == old(m.Metadata[k]))
+
+//@ func PoisonQueue
+//@   nopanic
+//@   ensures topic == "" ==> result0 == nil && result1 == ErrInvalidPoisonQueueTopic [empty-topic-refused]
+//@   ensures topic != "" ==> result0 != nil && result1 == nil [accepted]
+
+//@ func PoisonQueueWithFilter
+//@   nopanic
+//@   ensures topic == "" ==> result0 == nil && result1 == ErrInvalidPoisonQueueTopic [empty-topic-refused]
+//@   ensures topic != "" ==> result0 != nil && result1 == nil [accepted]
+
+//@ func (poisonQueue).Middleware$1
+//@   requires msg != nil && msg.Metadata != nil && h != nil && pq.shouldGoToPoisonQueue != nil && pq.pub != nil
+//@   callee H = h
+//@   callee F = pq.shouldGoToPoisonQueue
+//@   callee P = pq.pub.Publish
+//@   ensures calls(H) == old(calls(H)) + 1 [handler-called-once]
+//@   ensures ret(H, 1, old(calls(H))) == nil ==> err == nil && events == ret(H, 0, old(calls(H))) && calls(P) == old(calls(P)) && metaKept(msg) [success-untouched]
+//@   ensures ret(H, 1, old(calls(H))) != nil && !ret(F, 0, old(calls(F))) ==> err == ret(H, 1, old(calls(H))) && events == ret(H, 0, old(calls(H))) && calls(P) == old(calls(P)) && metaKept(msg) [filtered-out-untouched]
+//@   ensures ret(H, 1, old(calls(H))) != nil ==> calls(F) == old(calls(F)) + 1 && arg(F, 0, old(calls(F))) == ret(H, 1, old(calls(H))) [filter-asked-about-the-handler-error]
+//@   ensures ret(H, 1, old(calls(H))) != nil && ret(F, 0, old(calls(F))) ==> calls(P) == old(calls(P)) + 1 && arg(P, 0, old(calls(P))) == pq.topic && len(arg(P, 1, old(calls(P)))) == 1 && arg(P, 1, old(calls(P)))[0] == msg [published-once-to-the-poison-topic]
+//@   ensures ret(H, 1, old(calls(H))) != nil && ret(F, 0, old(calls(F))) ==> poisonStamped(msg, ret(H, 1, old(calls(H)))) && msg.UUID == old(msg.UUID) && msg.Payload == old(msg.Payload) [same-message-plus-poison-metadata]
+//@   ensures ret(H, 1, old(calls(H))) != nil && ret(F, 0, old(calls(F))) && ret(P, 0, old(calls(P))) == nil ==> err == nil && events == ret(H, 0, old(calls(H))) [success-only-after-publish]
+//@   ensures ret(H, 1, old(calls(H))) != nil && ret(F, 0, old(calls(F))) && ret(P, 0, old(calls(P))) != nil ==> err != nil [publish-failure-keeps-an-error]
+//@   panics-ensures panicked(H, old(calls(H))) ==> calls(P) == old(calls(P)) && metaKept(msg) [panicking-handler-is-not-poisoned]
